@@ -8,6 +8,8 @@ use crate::minerctl::{create_bls_accounts, create_miner};
 use crate::util::*;
 use crate::vm::*;
 use fil_actor_miner::{
+    PieceActivationManifest, ProveReplicaUpdates3Params, ProveReplicaUpdates3Return, SectorClaim,
+    SectorUpdateManifest, VerifiedAllocationKey,
     CompactPartitionsParams, DeclareFaultsParams, DeclareFaultsRecoveredParams, ExpirationExtension2,
     ExpirationQueue, ExtendSectorExpiration2Params, FaultDeclaration, Method as MinerMethod,
     PoStPartition, PowerPair, PreCommitSectorBatchParams2, ProveCommitSectors3Params,
@@ -19,8 +21,9 @@ use fil_actor_miner::{
 use fil_actor_power::{CronEvent, State as PowerState};
 use fil_actor_reward::AwardBlockRewardParams;
 use fil_actors_runtime::runtime::Policy;
-use fil_actors_runtime::test_utils::make_sealed_cid;
+use fil_actors_runtime::test_utils::{make_piece_cid, make_sealed_cid};
 use fil_actors_runtime::{
+    DATACAP_TOKEN_ACTOR_ADDR, VERIFIED_REGISTRY_ACTOR_ADDR,
     Array, BURNT_FUNDS_ACTOR_ADDR, DEFAULT_HAMT_CONFIG, Map2, Multimap, REWARD_ACTOR_ADDR,
     STORAGE_POWER_ACTOR_ADDR, SYSTEM_ACTOR_ADDR,
 };
@@ -52,7 +55,9 @@ pub fn tiny_policy() -> Policy {
     p.wpost_challenge_lookback = 1;
     p.fault_declaration_cutoff = 2;
     p.fault_max_age = 2 * 24;
-    p.wpost_dispute_window = 12;
+    // (a deadline is mutable for 12 epochs after it closes under this policy: with a dispute window of 12 it could never
+    // be compacted; 6 leaves the second half of that time for CompactPartitions)
+    p.wpost_dispute_window = 6;
     p.chain_finality = 3;
     p.worker_key_change_delay = 3;
     p.consensus_fault_ineligibility_duration = 3;
@@ -80,6 +85,10 @@ pub fn sectors_policy() -> Policy {
     let mut p = tiny_policy();
     p.addressed_sectors_max = 4;
     p.addressed_partitions_max = 3;
+    // verified allocations small enough for sectors that live a few proving periods
+    p.minimum_verified_allocation_term = 24;
+    p.maximum_verified_allocation_term = 4000;
+    p.maximum_verified_allocation_expiration = 60;
     p
 }
 
@@ -112,6 +121,21 @@ pub struct World {
     pub neglect: std::cell::Cell<bool>,
     /// generator: a miner in fee debt was just topped up -- withdraw (nothing or little) before the cron repays the debt
     pub pending_w0: std::cell::RefCell<Option<String>>,
+    /// open verified allocations the generator knows of: (allocation id, provider miner, piece name, size)
+    pub allocs: std::cell::RefCell<Vec<(u64, String, String, u64)>>,
+    /// serial number for piece names
+    pub piece_serial: std::cell::Cell<u64>,
+    /// sectors that received data through a replica update (cannot be updated again)
+    pub updated: std::cell::RefCell<Vec<u64>>,
+    /// claims the generator knows a sector to hold: (miner, sector) -> claim ids
+    pub sector_claims: std::cell::RefCell<BTreeMap<(String, u64), Vec<u64>>>,
+    /// generator: goals still to be reached in this trace (see `goal_call`)
+    pub goals: std::cell::RefCell<Vec<String>>,
+    /// generator: the miner proves everything that is due, without skipping and with valid proofs
+    pub diligent: std::cell::Cell<bool>,
+    /// generator: progress / chosen deadline (or start epoch) of the goal being pursued
+    pub goal_state: std::cell::Cell<u32>,
+    pub goal_dl: std::cell::Cell<i64>,
 }
 
 impl World {
@@ -133,10 +157,10 @@ impl World {
             v.set_actor(&STORAGE_POWER_ACTOR_ADDR, a);
             v.checkpoint();
         }
-        let accts = v.create_accounts(4, seed, &TokenAmount::from_whole(1_000_000));
+        let accts = v.create_accounts(6, seed, &TokenAmount::from_whole(1_000_000));
         let bls = create_bls_accounts(&v, 2, seed, &TokenAmount::from_whole(1000));
         let mut names = BTreeMap::new();
-        for (n, a) in ["o1", "o2", "x", "rep"].iter().zip(accts.iter()) {
+        for (n, a) in ["o1", "o2", "x", "rep", "vf", "cl"].iter().zip(accts.iter()) {
             names.insert(n.to_string(), *a);
         }
         names.insert("w1".into(), bls[0]);
@@ -153,8 +177,32 @@ impl World {
             created.insert(m.to_string(), v.epoch());
             miners.push(m.to_string());
         }
+        // DataCap: root -> verifier vf -> client cl (1 MiB, far more than the traces use)
+        {
+            let o = v.run_p(
+                &TEST_VERIFREG_ROOT_SIGNER_ADDR,
+                &TEST_VERIFREG_ROOT_ADDR,
+                &TokenAmount::from_atto(0),
+                fil_actor_multisig::Method::Propose as u64,
+                &fil_actor_multisig::ProposeParams {
+                    to: VERIFIED_REGISTRY_ACTOR_ADDR,
+                    value: TokenAmount::from_atto(0),
+                    method: fil_actor_verifreg::Method::AddVerifier as u64,
+                    params: RawBytes::serialize(&fil_actor_verifreg::VerifierParams {
+                        address: names["vf"], allowance: StoragePower::from(1u64 << 22) }).unwrap(),
+                },
+            );
+            assert!(o.ok(), "add verifier: {}", o.message);
+            let r: fil_actor_multisig::ProposeReturn = o.de();
+            assert!(r.applied && r.code.is_success(), "add verifier (inner): {}", r.code);
+            let o = v.run_p(&names["vf"], &VERIFIED_REGISTRY_ACTOR_ADDR, &TokenAmount::from_atto(0),
+                fil_actor_verifreg::Method::AddVerifiedClient as u64,
+                &fil_actor_verifreg::VerifierParams { address: names["cl"], allowance: StoragePower::from(1u64 << 20) });
+            assert!(o.ok(), "add client: {}", o.message);
+        }
         let burnt0 = v.balance(&BURNT_FUNDS_ACTOR_ADDR);
-        World { boost: boost_amt, v, names, miners, burnt0, bad_posts: Default::default(), created, neglect: Default::default(), pending_w0: Default::default() }
+        World { boost: boost_amt, v, names, miners, burnt0, bad_posts: Default::default(), created, neglect: Default::default(), pending_w0: Default::default(),
+                allocs: Default::default(), piece_serial: Default::default(), updated: Default::default(), sector_claims: Default::default(), goals: Default::default(), diligent: Default::default(), goal_state: Default::default(), goal_dl: Default::default() }
     }
 
     pub fn mstate(&self, m: &str) -> MinerState {
@@ -477,6 +525,40 @@ impl World {
                     },
                 )
             }
+            "Alloc" => {
+                // the client transfers DataCap to the registry with one allocation request per piece
+                let m = call["m"].as_str().unwrap();
+                let reqs = fil_actor_verifreg::AllocationRequests {
+                    allocations: call["pieces"].as_array().unwrap().iter().map(|p| fil_actor_verifreg::AllocationRequest {
+                        provider: self.names[m].id().unwrap(),
+                        data: make_piece_cid(p["data"].as_str().unwrap().as_bytes()),
+                        size: fvm_shared::piece::PaddedPieceSize(p["size"].as_u64().unwrap()),
+                        term_min: call["tmin"].as_i64().unwrap(),
+                        term_max: call["tmax"].as_i64().unwrap(),
+                        expiration: call["exp"].as_i64().unwrap(),
+                    }).collect(),
+                    extensions: vec![],
+                };
+                let total: u64 = call["pieces"].as_array().unwrap().iter().map(|p| p["size"].as_u64().unwrap()).sum();
+                let o = self.v.run_p(&self.names["cl"], &DATACAP_TOKEN_ACTOR_ADDR, &zero,
+                    fil_actor_datacap::Method::TransferExported as u64,
+                    &frc46_token::token::types::TransferParams {
+                        to: VERIFIED_REGISTRY_ACTOR_ADDR,
+                        amount: TokenAmount::from_whole(total as i64),
+                        operator_data: RawBytes::serialize(&reqs).unwrap(),
+                    });
+                ev["ids"] = json!([]);
+                if o.ok() {
+                    let r: frc46_token::token::types::TransferReturn = o.de();
+                    if let Ok(resp) = r.recipient_data.deserialize::<fil_actor_verifreg::AllocationsResponse>() {
+                        ev["ids"] = json!(resp.new_allocations);
+                        for (id, p) in resp.new_allocations.iter().zip(call["pieces"].as_array().unwrap().iter()) {
+                            self.allocs.borrow_mut().push((*id, m.to_string(), p["data"].as_str().unwrap().to_string(), p["size"].as_u64().unwrap()));
+                        }
+                    }
+                }
+                o
+            }
             "Fund" => self.v.run(
                 &self.names["x"],
                 &self.names[call["m"].as_str().unwrap()],
@@ -585,13 +667,72 @@ impl World {
                         &ExtendSectorExpiration2Params {
                             extensions: call["decls"].as_array().unwrap().iter().map(|d| ExpirationExtension2 {
                                 deadline: d["dl"].as_u64().unwrap(), partition: d["p"].as_u64().unwrap(),
-                                sectors: bf(&d["s"]), sectors_with_claims: vec![],
+                                sectors: bf(&d["s"]),
+                                sectors_with_claims: d["claims"].as_array().map(|cs| cs.iter().map(|c| SectorClaim {
+                                    sector_number: c["n"].as_u64().unwrap(),
+                                    maintain_claims: c["maintain"].as_array().unwrap().iter().map(|x| x.as_u64().unwrap()).collect(),
+                                    drop_claims: c["drop"].as_array().unwrap().iter().map(|x| x.as_u64().unwrap()).collect(),
+                                }).collect()).unwrap_or_default(),
                                 new_expiration: d["exp"].as_i64().unwrap() }).collect(),
                         }),
+                    "ReplicaUpdate" => {
+                        let ups = call["ups"].as_array().unwrap();
+                        let client = self.names["cl"].id().unwrap();
+                        let manifests: Vec<SectorUpdateManifest> = ups.iter().map(|u| {
+                            let n = u["n"].as_u64().unwrap();
+                            SectorUpdateManifest { sector: n, deadline: u["dl"].as_u64().unwrap(), partition: u["p"].as_u64().unwrap(),
+                                new_sealed_cid: make_sealed_cid(format!("ru: {n}").as_bytes()),
+                                pieces: u["pieces"].as_array().unwrap().iter().map(|p| PieceActivationManifest {
+                                    cid: make_piece_cid(p["data"].as_str().unwrap().as_bytes()),
+                                    size: fvm_shared::piece::PaddedPieceSize(p["size"].as_u64().unwrap()),
+                                    verified_allocation_key: match p["id"].as_u64().unwrap_or(0) {
+                                        0 => None,
+                                        id => Some(VerifiedAllocationKey { client, id }),
+                                    },
+                                    notify: vec![],
+                                }).collect() }
+                        }).collect();
+                        let proof = if call["ni"].as_bool().unwrap_or(true) { SEAL_NI } else { SEAL };
+                        let o = self.v.run_p(&from, &maddr, &zero, MinerMethod::ProveReplicaUpdates3 as u64,
+                            &ProveReplicaUpdates3Params {
+                                sector_proofs: ups.iter().map(|_| RawBytes::new(vec![1, 2, 3, 4])).collect(),
+                                sector_updates: manifests,
+                                aggregate_proof: RawBytes::default(),
+                                update_proofs_type: proof.registered_update_proof().unwrap(),
+                                aggregate_proof_type: None,
+                                require_activation_success: call["requireAll"].as_bool().unwrap_or(false),
+                                require_notification_success: false,
+                            });
+                        if o.ok() {
+                            let r: ProveReplicaUpdates3Return = o.de();
+                            let fails: Vec<u32> = r.activation_results.fail_codes.iter().map(|f| f.idx).collect();
+                            ev["res"] = json!((0..ups.len() as u32).map(|i| !fails.contains(&i)).collect::<Vec<_>>());
+                            // the allocations of the successful updates are spent
+                            for (i, u) in ups.iter().enumerate() {
+                                if !fails.contains(&(i as u32)) {
+                                    self.updated.borrow_mut().push(u["n"].as_u64().unwrap());
+                                    for p in u["pieces"].as_array().unwrap() {
+                                        let id = p["id"].as_u64().unwrap_or(0);
+                                        self.allocs.borrow_mut().retain(|a| a.0 != id);
+                                        if id != 0 {
+                                            self.sector_claims.borrow_mut().entry((call["m"].as_str().unwrap().to_string(), u["n"].as_u64().unwrap())).or_default().push(id);
+                                        }
+                                    }
+                                }
+                            }
+                        }
+                        o
+                    }
                     "Compact" => self.v.run_p(&from, &maddr, &zero, MinerMethod::CompactPartitions as u64,
                         &CompactPartitionsParams { deadline: call["dl"].as_u64().unwrap(), partitions: bf(&call["parts"]) }),
-                    "Withdraw" => self.v.run_p(&from, &maddr, &zero, MinerMethod::WithdrawBalance as u64,
-                        &WithdrawBalanceParams { amount_requested: TokenAmount::from_nano(call["nano"].as_i64().unwrap()) }),
+                    "Withdraw" => {
+                        // "all": far more than the miner holds (everything available is paid out)
+                        let amount = if call["all"].as_bool().unwrap_or(false) { TokenAmount::from_whole(1_000_000_000) }
+                                     else { TokenAmount::from_nano(call["nano"].as_i64().unwrap()) };
+                        ev["req"] = big(&amount);
+                        self.v.run_p(&from, &maddr, &zero, MinerMethod::WithdrawBalance as u64,
+                            &WithdrawBalanceParams { amount_requested: amount })
+                    }
                     "RepayDebt" => self.v.run(&from, &maddr, &zero, MinerMethod::RepayDebt as u64, None),
                     "ReportFault" => {
                         // the consensus-fault oracle answers what the driver decided
@@ -683,8 +824,239 @@ fn dl_open(pps: i64, d: i64, w: i64) -> i64 {
     pps + d * w
 }
 
+/// One sector of a miner as the generator sees it.
+#[derive(Clone, Debug)]
+struct SecView {
+    n: u64,
+    dl: i64,
+    p: u64,
+    exp: i64,
+    vw: i64,
+    unproven: bool,
+    faulty: bool,
+    recovering: bool,
+    term: bool,
+}
+impl SecView {
+    fn active(&self) -> bool {
+        !self.unproven && !self.faulty && !self.term
+    }
+    fn live(&self) -> bool {
+        !self.term
+    }
+}
+fn sec_views(ms: &Value) -> Vec<SecView> {
+    let mut out = vec![];
+    let infos = ms["sectors"].as_array().unwrap();
+    for d in ms["dls"].as_array().unwrap() {
+        for p in d["parts"].as_array().unwrap() {
+            let has = |k: &str, n: u64| p[k].as_array().unwrap().iter().any(|x| x.as_u64() == Some(n));
+            for x in p["S"].as_array().unwrap() {
+                let n = x.as_u64().unwrap();
+                let info = infos.iter().find(|s| s["n"].as_u64() == Some(n));
+                out.push(SecView { n, dl: d["d"].as_i64().unwrap(), p: p["i"].as_u64().unwrap(),
+                    exp: info.map(|s| s["exp"].as_i64().unwrap()).unwrap_or(0),
+                    vw: info.map(|s| s["vw"].as_i64().unwrap()).unwrap_or(0),
+                    unproven: has("U", n), faulty: has("F", n), recovering: has("R", n), term: has("T", n) });
+            }
+        }
+    }
+    out
+}
+
+/// Goal-directed part of the generator: rare-but-valid configurations that purely random schedules almost never
+/// reach in the quick volume (batches spanning several deadlines with non-zero deltas, verified data snapped into
+/// committed-capacity sectors, claim drops at the end of a sector's life, ...).  A goal looks at the projected state
+/// and returns the next call towards it (or None when it is reached / has become unreachable); the random
+/// generator continues afterwards from whatever state that produced.
+fn goal_call(rng: &mut Rng, w: &World, policy: &Policy, view: &View) -> Option<Value> {
+    let goal = w.goals.borrow().first().cloned()?;
+    let m = "m1";
+    let ms = view.miner(m);
+    let epoch = view.st["epoch"].as_i64().unwrap();
+    let wdw = policy.wpost_challenge_window;
+    let nd = policy.wpost_period_deadlines as i64;
+    let period = policy.wpost_proving_period;
+    let pps = ms["pps"].as_i64().unwrap();
+    let cur = (((epoch - pps) % period + period) % period) / wdw;
+    let into = ((epoch - pps) % wdw + wdw) % wdw;
+    let secs = sec_views(ms);
+    let mutable = |d: i64| d != cur && d != (cur + 1) % nd;
+    let done = |w: &World| { w.goals.borrow_mut().remove(0); w.goal_state.set(0); };
+    let alloc: Vec<u64> = ms["alloc"].as_array().unwrap().iter().map(|x| x.as_u64().unwrap()).collect();
+    let fresh_numbers = |k: usize| -> Vec<u64> { (0..200u64).filter(|x| !alloc.contains(x)).take(k).collect() };
+    // the miner proves everything that is due (valid proofs, nothing skipped) while a goal is pursued
+    if epoch >= pps && !(w.neglect.get()) {
+        let posted: Vec<u64> = ms["dls"].as_array().unwrap()[cur as usize]["posted"].as_array().unwrap().iter().map(|x| x.as_u64().unwrap()).collect();
+        let mut open: Vec<u64> = secs.iter().filter(|s| s.dl == cur && s.live() && (!s.faulty || s.recovering) && !posted.contains(&s.p)).map(|s| s.p).collect();
+        open.sort();
+        open.dedup();
+        open.truncate(2);
+        if !open.is_empty() {
+            return Some(json!({"a": "PoSt", "m": m, "c": "worker", "dl": cur, "badProof": false,
+                               "parts": open.iter().map(|i| json!({"i": i, "skipped": []})).collect::<Vec<_>>()}));
+        }
+    }
+    let wait = || -> Value { json!({"a": "Tick", "n": (wdw - into).max(1)}) };
+    match goal.as_str() {
+        // verified data snapped into committed-capacity sectors of TWO deadlines by ONE ProveReplicaUpdates3
+        "ru-multi" => {
+            let cc: Vec<&SecView> = secs.iter().filter(|s| s.active() && s.vw == 0 && !w.updated.borrow().contains(&s.n) && s.exp - epoch > 40).collect();
+            let mut dls: Vec<i64> = cc.iter().map(|s| s.dl).collect();
+            dls.sort();
+            dls.dedup();
+            let live_dls: Vec<i64> = { let mut v: Vec<i64> = secs.iter().filter(|s| s.live() && s.exp - epoch > 40).map(|s| s.dl).collect(); v.sort(); v.dedup(); v };
+            if dls.len() >= 2 {
+                let a = (cur + 2) % nd;
+                let b = (cur + 3) % nd;
+                if !(dls.contains(&a) && dls.contains(&b)) {
+                    // the two mutable deadlines are not (yet) two deadlines with updatable sectors
+                    if dls.iter().filter(|d| mutable(**d)).count() >= 2 { /* cannot happen with 4 deadlines */ }
+                    return Some(wait());
+                }
+                let mut targets: Vec<&SecView> = vec![];
+                for d in [a, b] {
+                    let mut k = 0;
+                    for s in cc.iter().filter(|s| s.dl == d) {
+                        if k < 1 + rng.below(2) as usize { targets.push(s); k += 1; }
+                    }
+                }
+                let have: Vec<(u64, String, String, u64)> = w.allocs.borrow().iter().filter(|a| a.1 == m && a.3 == 2048).cloned().collect();
+                if have.len() < targets.len() {
+                    let mut pieces = vec![];
+                    for _ in 0..(targets.len() - have.len()) {
+                        let k = w.piece_serial.get();
+                        w.piece_serial.set(k + 1);
+                        pieces.push(json!({"data": format!("pc{k}"), "size": 2048}));
+                    }
+                    return Some(json!({"a": "Alloc", "m": m, "pieces": pieces, "tmin": 24, "tmax": 4000, "exp": epoch + 50}));
+                }
+                let ups: Vec<Value> = targets.iter().zip(have.iter()).map(|(s, a)| json!({"n": s.n, "dl": s.dl, "p": s.p,
+                    "pieces": [{"data": a.2, "size": a.3, "id": a.0}]})).collect();
+                done(w);
+                return Some(json!({"a": "ReplicaUpdate", "m": m, "c": "worker", "ups": ups, "requireAll": rng.chance(30)}));
+            }
+            if live_dls.len() < 2 {
+                // commit two sectors into a mutable deadline that holds none yet (long-lived enough for the claims)
+                let d = if !live_dls.contains(&((cur + 2) % nd)) { (cur + 2) % nd } else { (cur + 3) % nd };
+                let ns = fresh_numbers(2);
+                let exp = epoch + policy.min_sector_expiration + 2 * period + rng.range(0, 30);
+                return Some(json!({"a": "CommitNI", "m": m, "c": "worker", "dl": d, "requireAll": true,
+                                   "sectors": ns.iter().map(|n| json!({"n": n, "exp": exp})).collect::<Vec<_>>()}));
+            }
+            // (poor miners cannot afford the pledge; give up after a while)
+            if epoch > 400 { done(w); return None; }
+            Some(wait())
+        }
+        // ONE ExtendSectorExpiration2 over sectors with claims in two deadlines, dropping a claim in the first
+        "ext-multi" => {
+            let sc = w.sector_claims.borrow();
+            let mut with: Vec<&SecView> = secs.iter().filter(|s| s.active() && s.vw > 0 && sc.contains_key(&(m.to_string(), s.n))).collect();
+            with.sort_by_key(|s| (s.dl, s.n));
+            let mut dls: Vec<i64> = with.iter().map(|s| s.dl).collect();
+            dls.dedup();
+            if dls.len() < 2 { drop(sc); done(w); return None; }
+            let first = *with.iter().min_by_key(|s| (s.exp, s.n)).unwrap();
+            let second = *with.iter().filter(|s| s.dl != first.dl).min_by_key(|s| (s.exp, s.n)).unwrap();
+            // the second sector keeps its claims two times out of three, else drops them as well
+            let keep = (first.n + second.n) % 3 != 0;
+            let gate = if keep { first.exp } else { first.exp.max(second.exp) };
+            if gate - epoch >= policy.end_of_life_claim_drop_period {
+                return Some(json!({"a": "Tick", "n": (gate - epoch - policy.end_of_life_claim_drop_period + 1).min((wdw - into).max(1))}));
+            }
+            let new_exp = with.iter().map(|s| s.exp).max().unwrap() + *rng.pick(&[24, 48, 30]);
+            let mut decls = vec![json!({"dl": first.dl, "p": first.p, "s": [], "exp": new_exp,
+                "claims": [{"n": first.n, "maintain": [], "drop": sc[&(m.to_string(), first.n)]}]})];
+            decls.push(json!({"dl": second.dl, "p": second.p, "s": [], "exp": new_exp,
+                "claims": [{"n": second.n, "maintain": if keep { sc[&(m.to_string(), second.n)].clone() } else { vec![] },
+                            "drop": if keep { vec![] } else { sc[&(m.to_string(), second.n)].clone() }}]}));
+            drop(sc);
+            done(w);
+            Some(json!({"a": "Extend", "m": m, "c": "worker", "decls": decls}))
+        }
+        // a termination backlog (more early terminations at one deadline end than one callback may process) that is
+        // still being worked off when the deadline becomes available for compaction; then CompactPartitions naming a
+        // partition that has no pending terminations itself
+        "backlog-compact" => {
+            let st = w.goal_state.get();
+            let d = w.goal_dl.get();
+            let mine: Vec<&SecView> = secs.iter().filter(|s| s.dl == d).collect();
+            match st {
+                0..=3 => {
+                    // four batches of 8 sectors into the farthest mutable deadline
+                    let d = if st == 0 { (cur + 3) % nd } else { d };
+                    if !mutable(d) { done(w); return None; }
+                    w.goal_dl.set(d);
+                    w.goal_state.set(st + 1);
+                    let ns = fresh_numbers(8);
+                    let exp = epoch + policy.min_sector_expiration + 6 * period;
+                    Some(json!({"a": "CommitNI", "m": m, "c": "worker", "dl": d, "requireAll": true,
+                                "sectors": ns.iter().map(|n| json!({"n": n, "exp": exp})).collect::<Vec<_>>()}))
+                }
+                4 => {
+                    // partition 0 is terminated by hand (and paid for at once); from now on the miner proves nothing
+                    w.goal_state.set(5);
+                    w.neglect.set(true);
+                    let p0: Vec<u64> = mine.iter().filter(|s| s.p == 0 && s.live()).map(|s| s.n).collect();
+                    if p0.is_empty() || !mutable(d) { done(w); return None; }
+                    Some(json!({"a": "Terminate", "m": m, "c": "worker", "decls": [{"dl": d, "p": 0, "s": p0}]}))
+                }
+                _ => {
+                    let pending = ms["dls"].as_array().unwrap()[d as usize]["early"].as_array().unwrap().len();
+                    let live = mine.iter().filter(|s| s.live()).count();
+                    if live == 0 && pending == 0 { done(w); w.neglect.set(false); return None; }
+                    if pending > 0 {
+                        // the epochs since the deadline closed
+                        let since = (epoch - pps - (d + 1) * wdw).rem_euclid(period);
+                        if since >= policy.wpost_dispute_window && mutable(d) {
+                            done(w);
+                            w.neglect.set(false);
+                            return Some(json!({"a": "Compact", "m": m, "c": "worker", "dl": d, "parts": [0]}));
+                        }
+                        return Some(json!({"a": "Tick", "n": 1}));
+                    }
+                    if epoch > 600 { done(w); w.neglect.set(false); return None; }
+                    Some(wait())
+                }
+            }
+        }
+        // a miner that holds nothing but its collateral, neglects its sectors and receives small amounts at odd moments:
+        // penalties turn into fee debt, part of which each deadline callback repays from whatever has arrived
+        "debt-timeout" => {
+            let st = w.goal_state.get();
+            match st {
+                0 => {
+                    w.goal_state.set(1);
+                    let ns = fresh_numbers(2);
+                    let exp = epoch + policy.min_sector_expiration + 8 * period;
+                    Some(json!({"a": "CommitNI", "m": m, "c": "worker", "dl": (cur + 2) % nd, "requireAll": true,
+                                "sectors": ns.iter().map(|n| json!({"n": n, "exp": exp})).collect::<Vec<_>>()}))
+                }
+                1 => {
+                    w.goal_state.set(2);
+                    w.neglect.set(true);
+                    w.goal_dl.set(epoch);
+                    Some(json!({"a": "Withdraw", "m": m, "c": "owner", "nano": 0, "all": true}))
+                }
+                _ => {
+                    if epoch - w.goal_dl.get() > 4 * period + 12 || secs.iter().all(|s| !s.live()) { done(w); w.neglect.set(false); return None; }
+                    if rng.chance(45) {
+                        Some(json!({"a": "Fund", "m": m, "nano": *rng.pick(&[1, 1, 50, 1000, 100_000])}))
+                    } else {
+                        Some(json!({"a": "Tick", "n": *rng.pick(&[1, 1, 2, 3, (wdw - into).max(1)])}))
+                    }
+                }
+            }
+        }
+        _ => { done(w); None }
+    }
+}
+
 fn random_call(rng: &mut Rng, w: &World, policy: &Policy) -> Value {
     let view = View { st: w.project() };
+    if let Some(c) = goal_call(rng, w, policy, &view) {
+        return c;
+    }
     let epoch = view.st["epoch"].as_i64().unwrap();
     let m = rng.pick(&w.miners).clone();
     let ms = view.miner(&m);
@@ -992,15 +1364,28 @@ pub fn main(args: &[String]) {
     let mut rng = Rng::new(seed);
     for i in 0..n {
         let nm = if rng.chance(35) { 2 } else { 1 };
-        let boost = rng.chance(60);
+        // (the goal-directed traces run in a network that already holds other miners' pledge, where finding F1's
+        // negative-total abort cannot interfere)
+        let boost = rng.chance(60) || i % 2 == 1;
         let w = World::new_boosted(seed.wrapping_mul(1000) + i, nm, boost);
-        let poor = rng.chance(40);
+        let poor = rng.chance(40) && i % 6 % 2 == 0;
         if poor {
             w.drain();
         }
         w.neglect.set(rng.chance(25));
+        // every third trace pursues the verified-onboarding goals first (a funded, diligent miner)
+        let goals: Vec<String> = match i % 6 {
+            1 => vec!["ru-multi".into(), "ext-multi".into()],
+            3 => vec!["backlog-compact".into()],
+            5 => vec!["debt-timeout".into()],
+            _ => vec![],
+        };
+        if !goals.is_empty() {
+            w.neglect.set(false);
+        }
+        *w.goals.borrow_mut() = goals.clone();
         begin(&mut t, &w);
-        let mut calls = vec![json!({"a": "Create", "miners": nm, "boost": boost, "poor": poor})];
+        let mut calls = vec![json!({"a": "Create", "miners": nm, "boost": boost, "poor": poor, "goals": goals})];
         for _ in 0..len {
             let call = random_call(&mut rng, &w, &policy);
             t.line(&w.step(&call));
